@@ -1,16 +1,16 @@
 #!/bin/bash
 # usage: confirm_mutant_tests.sh Cxx "<test paths>"
 # In the scratch worktree /tmp/mut_Cxx: failing-test set with each patch must equal the baseline set.
-P="$1"; TESTS="$2"; WT=/tmp/mut_$P
+P="$1"; TESTS="$2"; TAG="${MUT_TAG:-}"; WT=/tmp/mut${TAG}_$P
 cd $WT || exit 9
 git checkout -q -- . 
 run() { PYTHONPATH=$WT/src /venv/bin/python -m pytest -q -p no:cacheprovider -n 4 -rfE $TESTS 2>&1 | grep -E "^(FAILED|ERROR)" | sed 's/ - .*//' | sort; }
-run > /tmp/mut_${P}_base_ids.txt
-echo "$P baseline failing: $(wc -l < /tmp/mut_${P}_base_ids.txt)"
-for d in /tmp/mut_${P}_out/m*/; do
+run > /tmp/mut${TAG}_${P}_base_ids.txt
+echo "$P baseline failing: $(wc -l < /tmp/mut${TAG}_${P}_base_ids.txt)"
+for d in /tmp/mut${TAG}_${P}_out/m*/; do
   m=$(basename $d)
   git apply "$d/patch.diff" || { echo "$P $m: patch does not apply in worktree"; continue; }
-  run > /tmp/mut_${P}_${m}_ids.txt
+  run > /tmp/mut${TAG}_${P}_${m}_ids.txt
   git checkout -q -- .
-  if diff -q /tmp/mut_${P}_base_ids.txt /tmp/mut_${P}_${m}_ids.txt >/dev/null; then echo "$P $m: tests identical to baseline ($(wc -l < /tmp/mut_${P}_${m}_ids.txt) failing)"; else echo "$P $m: TEST SET DIFFERS"; diff /tmp/mut_${P}_base_ids.txt /tmp/mut_${P}_${m}_ids.txt | head -5; fi
+  if diff -q /tmp/mut${TAG}_${P}_base_ids.txt /tmp/mut${TAG}_${P}_${m}_ids.txt >/dev/null; then echo "$P $m: tests identical to baseline ($(wc -l < /tmp/mut${TAG}_${P}_${m}_ids.txt) failing)"; else echo "$P $m: TEST SET DIFFERS"; diff /tmp/mut${TAG}_${P}_base_ids.txt /tmp/mut${TAG}_${P}_${m}_ids.txt | head -5; fi
 done
